@@ -23,7 +23,8 @@
   (SYieldF) (SYieldT) (SReturn) (SForeach (fg Body) (fc Code)) (SBlock (bl Int) (bc Code)) (SBreak (brl Int))
   (SAlias (al String) (ar String))                     ; <source variable> = argN
   (SDecl (dv String))                                  ; <variable> = variable()
-  (SUnify (uv String) (ue CE) (uc Code)))              ; for lN in unify(<argN>, <expr>): <code>
+  (SUnify (uv String) (ue CE) (uc Code))               ; for lN in unify(<argN>, <expr>): <code>
+  (SQuery (qn String) (qa CEL) (qc Code)))             ; for lN in query(<name>, [<exprs>]): <code>   (the concrete form of SForeach)
   ((cnil) (ccons (chd Stmt) (ctl Code)))))
 (declare-fun yieldB () Beh) (declare-fun failB () Beh) (declare-fun cutB () Beh)
 (declare-fun exitB (Int) Beh)
